@@ -16,7 +16,10 @@ import Frp.Model.NatPunch
   §4 port ranges of getRangePorts (ports_in_range; the function itself still maps 70000 to
      69995..65535 — `ports_out_of_range_witness` — but is no longer reachable with such a port)
   §5 Controller.analysis: the two responses — FULL: `analysis_full` (no hypothesis on ports),
-     `analysis_malformed_error`; pinned tree: `analysis_oor_witness` (¬ AnalysisFullFor classifyOld)
+     `analysis_malformed_error`; `classify_some_iff` / `classify_malformed_error` (every entry is
+     validated, wherever the NAT type is decided); instruction timing `tables_timing` (every row of
+     every regenerated table) ⇒ `analysis_timing` (all histories);
+     pinned tree: `analysis_oor_witness` (¬ AnalysisFullFor classifyOld)
   §6 sessions, small-step, all interleavings — creation only when signed AND allowed; addressing;
      rank argument `sessions_deleted`; FULL progress `handler_never_stuck` (every stored session of
      every reachable state has an enabled handler step); pinned tree: `leak_witness`,
@@ -25,6 +28,7 @@ import Frp.Model.NatPunch
      not-yet-analysed / failed-analysis sids over all reachable states (`report_not_analysed_noop`)
   §7 soundness of the predicates the driver evaluates on the implementation's responses
   §8 client side (Model/NatPunch.lean): waitDetectMessage over all inboxes (`wait_accepts_only`),
+     memoryless (`waitLoop_eq_spec`, `waitLoop_memoryless`, `foreign_sid_anywhere`),
      FULL "honest peers meet" step by step (`honest_peers_meet_steps`), key mismatch, and the
      many-socket result hand-over: `handover_lost_witness` (current code, OPEN finding),
      `handover_main_first_partial`, repaired: `handover_buffered_never_lost`
@@ -81,6 +85,25 @@ theorem modes124_A_sends :
     (∀ p ∈ behaviorsByMode detectMode2, p.1.role = .sender ∧ p.2.role = .receiver) ∧
     (∀ p ∈ behaviorsByMode detectMode4, p.1.role = .sender ∧ p.2.role = .receiver) := by decide
 
+/-- controller.go `analysis()`: `timeoutMs := max(cBehavior.SendDelayMs, vBehavior.SendDelayMs) + 5000;
+    if cBehavior.ListenRandomPorts > 0 || vBehavior.ListenRandomPorts > 0 { timeoutMs += 30000 }` -/
+def timeoutMsOf (a b : Beh) : Nat :=
+  if a.listenRandomPorts > 0 ∨ b.listenRandomPorts > 0 then max a.sendDelayMs b.sendDelayMs + 5000 + 30000
+  else max a.sendDelayMs b.sendDelayMs + 5000
+
+/-- … and `ReadTimeoutMs: timeoutMs - xBehavior.SendDelayMs` for each party: the party that is not
+    the sender reads for at least the sender's send delay plus 5 s, the sender itself for at least
+    5 s after its delay (natural-number subtraction: nothing underflows) -/
+def RowTiming (a b : Beh) : Prop :=
+  (a.role = .sender → timeoutMsOf a b - b.sendDelayMs ≥ a.sendDelayMs + 5000 ∧ timeoutMsOf a b - a.sendDelayMs ≥ 5000) ∧
+  (b.role = .sender → timeoutMsOf a b - a.sendDelayMs ≥ b.sendDelayMs + 5000 ∧ timeoutMsOf a b - b.sendDelayMs ≥ 5000)
+
+instance (a b : Beh) : Decidable (RowTiming a b) := by unfold RowTiming; exact inferInstance
+
+/-- EVERY row of EVERY regenerated table, in either assignment of its two columns to client and
+    visitor (the swap rules): the read timeouts `analysis()` derives cover the peer's send delay -/
+theorem tables_timing : ∀ t ∈ allTables, ∀ p ∈ t, RowTiming p.1 p.2 ∧ RowTiming p.2 p.1 := by decide
+
 /-! ## 2. The executable predicates (evaluated by the driver on the implementation's own responses) -/
 
 def roleCompl (a b : Role) : Bool :=
@@ -116,15 +139,33 @@ def instrOk (sid : Str) (vm : VMsg) (cm : CMsg) (v c : Resp) : Bool :=
 
 def rangesOk (v c : Resp) : Bool := (v.candidatePorts ++ c.candidatePorts).all rangeOk
 
+/-- nathole.go `MakeHole`: `timeout := 5 * time.Second; if ReadTimeoutMs > 0 { timeout = ReadTimeoutMs ms }` -/
+def effReadMs (ms : Nat) : Nat := if ms > 0 then ms else 5000
+
+/-- controller.go `HandleVisitor`: the response of the party whose role is sender is held back by
+    `time.Sleep(1 * time.Second)`; the other party gets its response at once -/
+def senderHoldMs : Nat := 1000
+
+/-- the instructions fit together IN TIME: the party that is not the sender starts reading when its
+    response arrives; the sender gets its response `senderHoldMs` later, sleeps `SendDelayMs` and only
+    then sends its first detect message.  The receiver must still be reading at that moment:
+    its (effective) read timeout exceeds the sender's hold-back plus send delay.  (The demand is the
+    weakest one that makes "follow the instructions ⇒ find each other" possible on a network without
+    latency; `Controller.analysis` gives 5 s — or 35 s — more than the sender's delay: `analysis_timing`.) -/
+def timingOk (v c : Resp) : Bool :=
+  (v.role != .sender || decide (effReadMs c.readTimeoutMs > v.sendDelayMs + senderHoldMs)) &&
+  (c.role != .sender || decide (effReadMs v.readTimeoutMs > c.sendDelayMs + senderHoldMs))
+
 /-- clauses 1 and 4 without the port-range clause -/
 def pairOk (sid : Str) (vm : VMsg) (cm : CMsg) (v c : Resp) : Bool :=
   errPairOk v c || instrOk sid vm cm v c
 
 /-- the full statement: either an error pair, or instructions computed from valid addresses with
-    valid port ranges (malformed / out-of-range addresses must give the error pair) -/
+    valid port ranges (malformed / out-of-range addresses must give the error pair) that also fit
+    together in time (`timingOk`) -/
 def fullOk (sid : Str) (vm : VMsg) (cm : CMsg) (v c : Resp) : Bool :=
   errPairOk v c ||
-  (instrOk sid vm cm v c && addrsValid vm.mapped && addrsValid cm.mapped && rangesOk v c)
+  (instrOk sid vm cm v c && addrsValid vm.mapped && addrsValid cm.mapped && rangesOk v c && timingOk v c)
 
 /-- `report`: what the driver demands of the implementation's own answer to a NatHoleReport.
     `frameSame` = between the snapshots taken before and after `HandleReport` nothing differs but
@@ -458,6 +499,67 @@ theorem classify_ok_valid {addrs loc : List Str} {f : Feature} (h : classify add
     · next st hst =>
       exact List.all_eq_true.mpr (classifyLoop_valid loc addrs {} st hst)
 
+/-- the loop validates EVERY entry, wherever the NAT type is decided: it fails exactly when some
+    entry is not `portValid` — the running state (base IP, "IP changed", "port changed") has no
+    influence on acceptance -/
+theorem classifyLoop_isSome (loc : List Str) : ∀ (addrs : List Str) (st : ClsSt),
+    (classifyLoop loc addrs st).isSome = addrsValid addrs := by
+  intro addrs
+  induction addrs with
+  | nil => intro st; rfl
+  | cons x r ih =>
+    intro st
+    have hall : addrsValid (x :: r) = (portValid x && addrsValid r) := by simp [addrsValid]
+    rw [hall]
+    simp only [classifyLoop, portValid]
+    cases hsp : splitHostPort x with
+    | none => simp
+    | some ipp =>
+      obtain ⟨ip, port⟩ := ipp
+      simp only
+      cases hpn : atoi port with
+      | none => simp
+      | some pn =>
+        simp only
+        by_cases hr : pn < 1 ∨ pn > 65535
+        · have hf : (decide (1 ≤ pn) && decide (pn ≤ 65535)) = false := by
+            simp only [Bool.and_eq_false_iff, decide_eq_false_iff_not]; omega
+          simp [hr, hf]
+        · have ht : (decide (1 ≤ pn) && decide (pn ≤ 65535)) = true := by
+            simp only [Bool.and_eq_true, decide_eq_true_eq]; omega
+          simp only [hr, if_false, ht, Bool.true_and]
+          split <;> exact ih _
+
+/-- `ClassifyNATFeature` succeeds exactly on lists of at least two entries ALL of which split and
+    carry a decimal port in 1..65535 -/
+theorem classify_some_iff (addrs loc : List Str) :
+    (classify addrs loc).isSome = (decide (2 ≤ addrs.length) && addrsValid addrs) := by
+  unfold classify
+  by_cases hl : addrs.length ≤ 1
+  · have : decide (2 ≤ addrs.length) = false := by simp only [decide_eq_false_iff_not]; omega
+    simp [hl, this]
+  · have : decide (2 ≤ addrs.length) = true := by simp only [decide_eq_true_eq]; omega
+    simp only [hl, if_false, this, Bool.true_and]
+    rw [← classifyLoop_isSome loc addrs {}]
+    cases classifyLoop loc addrs {} <;> rfl
+
+/-- any malformed / unparsable / out-of-range entry ⇒ error, at EVERY position of the list and
+    whatever the entries before it decided (same address, port-only change, IP + port change) -/
+theorem classify_malformed_error (pre post : List Str) (a : Str) (loc : List Str) (hbad : portValid a = false) :
+    classify (pre ++ a :: post) loc = none := by
+  have h := classify_some_iff (pre ++ a :: post) loc
+  have hv : addrsValid (pre ++ a :: post) = false := by
+    simp [addrsValid, hbad]
+  rw [hv, Bool.and_false] at h
+  cases hc : classify (pre ++ a :: post) loc with
+  | none => rfl
+  | some f => rw [hc] at h; cases h
+
+example : classify [Str.ofString "198.51.100.7:4000", Str.ofString "198.51.100.9:4010", Str.ofString "198.51.100.9:70000"] [] = none := by
+  decide +kernel
+example : (classify [Str.ofString "198.51.100.7:4000", Str.ofString "198.51.100.9:4010", Str.ofString "198.51.100.9:4011"] []).map (·.behavior)
+    = some .bothChanged := by decide +kernel
+
 /-- a mapped address on either side that is malformed (does not split, port not a decimal
     integer) or, with f51e354, has a port outside 1..65535 makes the analysis fail — both
     parties then get the error pair (`analysis_error_both`), never an instruction -/
@@ -478,6 +580,70 @@ theorem analysis_malformed_error (A : Analyzer) (sid : Str) (vm : VMsg) (cm : CM
     · rw [hcls vm.mapped _ hv]; exact ⟨_, rfl⟩
   · rw [hcls cm.mapped _ hc]; exact ⟨_, rfl⟩
 
+theorem swapRule_cases (mode : Nat) (c : Feature) (ab : Beh × Beh) :
+    swapRule mode c ab = ab ∨ swapRule mode c ab = (ab.2, ab.1) := by
+  unfold swapRule
+  repeat' split
+  all_goals first | exact Or.inl rfl | exact Or.inr rfl
+
+/-- what `timingOk` needs of the two behaviours `analysis()` works with -/
+theorem timingOk_of_row (v c : Resp) (cB vB : Beh) (h : RowTiming cB vB)
+    (hvr : v.role = vB.role) (hcr : c.role = cB.role)
+    (hvd : v.sendDelayMs = vB.sendDelayMs) (hcd : c.sendDelayMs = cB.sendDelayMs)
+    (hvt : v.readTimeoutMs = timeoutMsOf cB vB - vB.sendDelayMs)
+    (hct : c.readTimeoutMs = timeoutMsOf cB vB - cB.sendDelayMs) : timingOk v c = true := by
+  obtain ⟨h1, h2⟩ := h
+  simp only [timingOk, Bool.and_eq_true, Bool.or_eq_true, bne_iff_ne, ne_eq, decide_eq_true_eq,
+    effReadMs, senderHoldMs, hvr, hcr, hvd, hcd, hvt, hct]
+  constructor
+  · by_cases hs : vB.role = .sender
+    · right
+      have := (h2 hs).1
+      split <;> omega
+    · left; exact hs
+  · by_cases hs : cB.role = .sender
+    · right
+      have := (h1 hs).1
+      split <;> omega
+    · left; exact hs
+
+/-- instruction timing, ALL histories: whatever the analyzer has seen before, whichever table row
+    is recommended (`recommand_row`) and however the swap rules assign its columns, the party that
+    is not the sender is told to read for longer than the sender is held back and told to wait
+    before its first detect message (by the 5 s / 35 s `analysis()` adds: `tables_timing`) -/
+theorem analysisWith_timing (cls : List Str → List Str → Option Feature)
+    (A A' : Analyzer) (sid : Str) (vm : VMsg) (cm : CMsg) (o : AnalysisOut)
+    (hA : AInv A) (h : analysisWith cls A sid vm cm = .ok (A', o)) :
+    timingOk o.vResp o.cResp = true := by
+  unfold analysisWith at h
+  split at h
+  · cases h
+  · next cf hcf =>
+    split at h
+    · cases h
+    · next vf hvf =>
+      simp only [Except.ok.injEq, Prod.mk.injEq] at h
+      obtain ⟨_, ho⟩ := h
+      subst ho
+      have hrow : (getRecommand A (analysisKey vm vf cm cf) cf vf).2.index <
+          (behaviorsByMode (getRecommand A (analysisKey vm vf cm cf) cf vf).2.mode).length := by
+        rw [getRecommand_eq]; exact NatHole.recommand_row (valid_recsFor hA _ cf vf)
+      have ht : RowTiming (getRecommand A (analysisKey vm vf cm cf) cf vf).2.cBeh
+          (getRecommand A (analysisKey vm vf cm cf) cf vf).2.vBeh := by
+        rw [getRecommand_eq] at hrow ⊢
+        simp only at hrow ⊢
+        have hm := tables_timing _ (byMode_mem _) _ (row_of_valid hrow)
+        rcases swapRule_cases (recommand (recsFor A (analysisKey vm vf cm cf) cf vf)).2.1 cf
+          (behaviorByModeAndIndex (recommand (recsFor A (analysisKey vm vf cm cf) cf vf)).2.1
+            (recommand (recsFor A (analysisKey vm vf cm cf) cf vf)).2.2) with e | e
+        · rw [e]; exact hm.1
+        · rw [e]; exact hm.2
+      apply timingOk_of_row _ _ _ _ ht <;> first | rfl | (simp only [timeoutMsOf]; split <;> rfl)
+
+theorem analysis_timing (A A' : Analyzer) (sid : Str) (vm : VMsg) (cm : CMsg) (o : AnalysisOut)
+    (hA : AInv A) (h : analysis A sid vm cm = .ok (A', o)) : timingOk o.vResp o.cResp = true :=
+  analysisWith_timing classify A A' sid vm cm o hA h
+
 /-- the response clause at full strength (over a classifier) -/
 def AnalysisFullFor (cls : List Str → List Str → Option Feature) : Prop :=
   ∀ (A A' : Analyzer) (sid : Str) (vm : VMsg) (cm : CMsg) (o : AnalysisOut),
@@ -492,6 +658,7 @@ theorem analysis_full_partial (cls : List Str → List Str → Option Feature)
     (h : analysisWith cls A sid vm cm = .ok (A', o)) :
     fullOk sid vm cm o.vResp o.cResp = true := by
   have hpair := (analysisWith_pair_ok cls A A' sid vm cm o hA hsid h).1
+  have htime := analysisWith_timing cls A A' sid vm cm o hA h
   have hlast : ∀ (l : List Str), addrsValid l = true →
       ∀ a, (compactZeroed l).getLast? = some a → portValid a = true ∨ splitHostPort a = none := by
     intro l hl a ha
@@ -514,7 +681,7 @@ theorem analysis_full_partial (cls : List Str → List Str → Option Feature)
       have h2 := ports_in_range_core (compactZeroed vm.mapped) vf.portsDifference
         (getRecommand A (analysisKey vm vf cm cf) cf vf).2.cBeh.portsRangeNumber
         (by have := hdiff _ _ _ hvf; omega) (hlast _ hv)
-      simp only [fullOk, hpair, hv, hc, Bool.true_and, Bool.or_eq_true]
+      simp only [fullOk, hpair, hv, hc, htime, Bool.true_and, Bool.and_true, Bool.or_eq_true]
       right
       simp only [rangesOk, List.all_eq_true, List.mem_append]
       intro r hr
@@ -1683,6 +1850,26 @@ def Instr (sid : Str) (vm : VMsg) (cm : CMsg) (v c : Resp) : Prop :=
 def RangesIn (v c : Resp) : Prop :=
   ∀ r ∈ v.candidatePorts ++ c.candidatePorts, 1 ≤ r.1 ∧ r.1 ≤ r.2 ∧ r.2 ≤ 65535
 
+/-- whoever is the sender: the other party's effective read timeout (nathole.go MakeHole: 5 s when
+    ReadTimeoutMs is 0) is longer than the sender's hold-back at the server plus its send delay -/
+def TimingFits (v c : Resp) : Prop :=
+  (v.role = .sender → effReadMs c.readTimeoutMs > v.sendDelayMs + senderHoldMs) ∧
+  (c.role = .sender → effReadMs v.readTimeoutMs > c.sendDelayMs + senderHoldMs)
+
+theorem timingOk_iff (v c : Resp) : timingOk v c = true ↔ TimingFits v c := by
+  simp only [timingOk, TimingFits, Bool.and_eq_true, Bool.or_eq_true, bne_iff_ne, ne_eq, decide_eq_true_eq]
+  constructor
+  · intro ⟨h1, h2⟩
+    exact ⟨fun hs => h1.resolve_left (fun hn => hn hs), fun hs => h2.resolve_left (fun hn => hn hs)⟩
+  · intro ⟨h1, h2⟩
+    constructor
+    · by_cases hs : v.role = .sender
+      · exact Or.inr (h1 hs)
+      · exact Or.inl hs
+    · by_cases hs : c.role = .sender
+      · exact Or.inr (h2 hs)
+      · exact Or.inl hs
+
 theorem errPairOk_iff (v c : Resp) : errPairOk v c = true ↔ ErrPair v c := by
   simp only [errPairOk, ErrPair, Bool.and_eq_true, bne_iff_ne, ne_eq, beq_iff_eq]
   constructor
@@ -1713,15 +1900,16 @@ theorem pairOk_sound (sid : Str) (vm : VMsg) (cm : CMsg) (v c : Resp) :
 /-- `fullOk` (the full clause incl. address validation and port ranges) -/
 theorem fullOk_sound (sid : Str) (vm : VMsg) (cm : CMsg) (v c : Resp) :
     fullOk sid vm cm v c = true ↔
-      (ErrPair v c ∨ (Instr sid vm cm v c ∧ addrsValid vm.mapped = true ∧ addrsValid cm.mapped = true ∧ RangesIn v c)) := by
-  simp only [fullOk, Bool.or_eq_true, Bool.and_eq_true, errPairOk_iff, instrOk_iff, rangesOk_iff]
+      (ErrPair v c ∨ (Instr sid vm cm v c ∧ addrsValid vm.mapped = true ∧ addrsValid cm.mapped = true ∧ RangesIn v c ∧
+        TimingFits v c)) := by
+  simp only [fullOk, Bool.or_eq_true, Bool.and_eq_true, errPairOk_iff, instrOk_iff, rangesOk_iff, timingOk_iff]
   constructor
-  · rintro (h | ⟨⟨⟨a, b⟩, c'⟩, d⟩)
+  · rintro (h | ⟨⟨⟨⟨a, b⟩, c'⟩, d⟩, e⟩)
     · exact Or.inl h
-    · exact Or.inr ⟨a, b, c', d⟩
-  · rintro (h | ⟨a, b, c', d⟩)
+    · exact Or.inr ⟨a, b, c', d, e⟩
+  · rintro (h | ⟨a, b, c', d, e⟩)
     · exact Or.inl h
-    · exact Or.inr ⟨⟨⟨a, b⟩, c'⟩, d⟩
+    · exact Or.inr ⟨⟨⟨⟨a, b⟩, c'⟩, d⟩, e⟩
 
 /-- the model's own responses satisfy the driver predicate (ties §5 to §7) -/
 theorem model_pairOk (A A' : Analyzer) (sid : Str) (vm : VMsg) (cm : CMsg) (o : AnalysisOut)
@@ -1815,6 +2003,112 @@ theorem wait_accepts_only (role : Role) (sid : Str) : ∀ (inbox : List (Str × 
           cases r with
           | false => by_cases hr : role = .sender <;> simp [hr] at hw
           | true => exact ⟨true, List.mem_cons_self, fun _ => rfl, rfl⟩
+
+/-! ### no state is carried from one datagram to the next
+
+  `waitDetectMessage` declares its decode target (`var m msg.NatHoleSid`) inside the read loop: what
+  it does with a datagram depends on that datagram alone (`waitOne`), never on the ones it passed
+  over before.  (`Response` is `omitempty`: a detect message carries no "response" key, and the JSON
+  decoder leaves absent fields of a reused target untouched — a target that outlived an iteration
+  would hand the flag of a discarded message of ANOTHER session to the next genuine one.) -/
+
+/-- does this datagram, by itself, end the wait? — it decodes with our key, carries OUR sid and,
+    for a sender, is a response -/
+def decides (role : Role) (sid : Str) : Dgram → Bool
+  | .junk => false
+  | .sid s response => s == sid && (response || role != .sender)
+
+/-- the specification of the wait: the first datagram that decides by itself; the party answers
+    (Response = true, to that datagram's source) exactly when it was not itself a response -/
+def specWait (role : Role) (sid : Str) (inbox : List (Str × Dgram)) : Option (Str × Bool) :=
+  (inbox.find? (fun p => decides role sid p.2)).map
+    (fun p => (p.1, match p.2 with | .sid _ response => !response | .junk => false))
+
+theorem waitOne_skip_iff (role : Role) (sid : Str) (d : Dgram) :
+    waitOne role sid d = .skip ↔ decides role sid d = false := by
+  cases d with
+  | junk => simp [waitOne, decides]
+  | sid s r =>
+    by_cases hs : s = sid
+    · subst hs
+      cases r <;> by_cases hr : role = .sender <;> simp [waitOne, decides, hr]
+    · simp [waitOne, decides, hs]
+
+/-- ALL inboxes: the loop is the memoryless specification -/
+theorem waitLoop_eq_spec (role : Role) (sid : Str) : ∀ inbox : List (Str × Dgram),
+    waitLoop role sid inbox = specWait role sid inbox := by
+  intro inbox
+  induction inbox with
+  | nil => rfl
+  | cons p l ih =>
+    obtain ⟨src, d⟩ := p
+    by_cases hd : decides role sid d = true
+    · have hns : waitOne role sid d ≠ .skip := fun h => by
+        rw [(waitOne_skip_iff role sid d).mp h] at hd; cases hd
+      cases d with
+      | junk => simp [decides] at hd
+      | sid s r =>
+        simp only [decides, Bool.and_eq_true, beq_iff_eq] at hd
+        obtain ⟨hs, hr⟩ := hd
+        subst hs
+        cases r with
+        | true => simp [waitLoop, waitOne, specWait, decides, List.find?]
+        | false =>
+          have hrs : role ≠ .sender := by simpa using hr
+          have hb : (role != Role.sender) = true := by simpa using hrs
+          simp [waitLoop, waitOne, specWait, decides, List.find?, hrs, hb]
+    · have hd' : decides role sid d = false := by cases h : decides role sid d <;> simp_all
+      have hs := (waitOne_skip_iff role sid d).mpr hd'
+      simp only [waitLoop, hs, specWait, List.find?, hd']
+      exact ih
+
+/-- whatever the loop has passed over leaves no trace: after a prefix on which it did not return,
+    it behaves exactly as if it had just started on the rest -/
+theorem waitLoop_memoryless (role : Role) (sid : Str) (pre rest : List (Str × Dgram))
+    (h : waitLoop role sid pre = none) : waitLoop role sid (pre ++ rest) = waitLoop role sid rest := by
+  apply waitLoop_skips
+  intro p hp
+  induction pre with
+  | nil => cases hp
+  | cons q l ih =>
+    obtain ⟨src, d⟩ := q
+    simp only [waitLoop] at h
+    split at h
+    · next hw =>
+      rcases List.mem_cons.mp hp with e | e
+      · subst e; exact hw
+      · exact ih h e
+    · cases h
+    · cases h
+
+/-- a NatHoleSid of ANOTHER session — same key, well-formed, Response true or false — changes
+    nothing, wherever it is queued: before the genuine detect message, after it, in between -/
+theorem foreign_sid_anywhere (role : Role) (sid s : Str) (response : Bool) (src : Str)
+    (l1 l2 : List (Str × Dgram)) (hs : s ≠ sid) :
+    waitLoop role sid (l1 ++ (src, Dgram.sid s response) :: l2) = waitLoop role sid (l1 ++ l2) := by
+  rw [waitLoop_eq_spec, waitLoop_eq_spec]
+  simp only [specWait, List.find?_append, List.find?]
+  have : decides role sid (Dgram.sid s response) = false := by simp [decides, hs]
+  simp only [this]
+
+/-- … and so does every datagram the loop skips (garbage, other key, truncated, other session,
+    non-responses at a sender): removing them all leaves the outcome unchanged -/
+theorem waitLoop_filter_harmless (role : Role) (sid : Str) (inbox : List (Str × Dgram)) :
+    waitLoop role sid (inbox.filter (fun p => decides role sid p.2)) = waitLoop role sid inbox := by
+  rw [waitLoop_eq_spec, waitLoop_eq_spec]
+  simp only [specWait]
+  congr 1
+  induction inbox with
+  | nil => rfl
+  | cons p l ih =>
+    by_cases hd : decides role sid p.2 = true
+    · simp [List.filter, List.find?, hd]
+    · have hd' : decides role sid p.2 = false := by cases h : decides role sid p.2 <;> simp_all
+      simp only [List.filter, List.find?, hd']
+      exact ih
+
+example : waitLoop .receiver [1] [([9], .sid [2] true), ([7], .sid [1] false)] = some ([7], true) := by decide
+example : waitLoop .sender [1] [([9], .sid [2] true), ([7], .sid [1] false), ([7], .sid [1] true)] = some ([7], false) := by decide
 
 /-- the sender probes every address the receiver reported (so, on an unfiltered network, the
     address the receiver really listens on) -/
